@@ -3,6 +3,8 @@
 All randomness comes from a ``numpy.random.Generator`` derived from
 (VERIF_SEED, check id, case index) by the check.
 """
+import math
+
 import numpy as np
 
 INF = float("inf")
@@ -202,6 +204,18 @@ def linear_constraints(rng, n, x0, count=None, kinds=LIMIT_KINDS):
         # avoid more equalities than variables
         out.append({"A": a.tolist(), "lb": lo.tolist(), "ub": hi.tolist(),
                     "kinds": ks})
+    if out and rng.random() < 0.12 and ("upper" in kinds or "lower" in kinds):
+        # a row stated a second time, in another object, with another limit
+        # (tighter or looser): both statements bind
+        src = out[int(rng.integers(len(out)))]
+        i = int(rng.integers(len(src["A"])))
+        row = np.asarray(src["A"][i], dtype=float)
+        side = str(rng.choice([k for k in ("upper", "lower") if k in kinds]))
+        lim = float(row @ np.asarray(x0, float)) + _r(rng, -1.0, 1.0)
+        out.append({"A": [row.tolist()],
+                    "lb": [-math.inf if side == "upper" else lim],
+                    "ub": [lim if side == "upper" else math.inf],
+                    "kinds": [side]})
     return out
 
 
